@@ -234,13 +234,35 @@ Section Elems.
     | |- frames ?a _ => first [exact (frames_refl a) | assumption | (eapply frames_trans; [eassumption|fr])]
     end.
 
+  Lemma keeps_un2 f s : keeps (un2 f s) s.
+  Proof.
+    unfold un2. destruct (pop1 s) as [s1 a] eqn:E. apply pop1_frames in E.
+    destruct (f a); simpl; auto.
+  Qed.
+
+  Lemma keeps_stack_op f s : keeps (stack_op f s) s.
+  Proof. unfold stack_op. destruct (f (stk s)); simpl; auto. fsame. Qed.
+
+  Lemma keeps_elem_more k s : keeps (elem_more k s) s.
+  Proof.
+    unfold elem_more.
+    repeat match goal with
+    | |- keeps (if ?b then _ else _) _ => destruct b
+    end.
+    all: try apply keeps_un; try apply keeps_bin; try apply keeps_un2; try apply keeps_stack_op; try exact I.
+    all: try (simpl; fsame).
+    (* over *)
+    destruct (stk s) as [|x [|y r]]; simpl; try fsame;
+      (destruct (get_input s) as [s1 a] eqn:E; pose proof (frames_get_input s) as F; rewrite E in F; simpl in *; fr).
+  Qed.
+
   Lemma keeps_elem_pure k s : keeps (elem_pure k s) s.
   Proof.
     unfold elem_pure.
     repeat match goal with
     | |- keeps (if ?b then _ else _) _ => destruct b
     end.
-    all: try apply keeps_un; try apply keeps_bin; try exact I.
+    all: try apply keeps_un; try apply keeps_bin; try exact I; try apply keeps_elem_more.
     all: try (exact (frames_pop1 s)).
     all: try (destruct (ctxv s); fr).
     all: try (pops; fr).
